@@ -28,6 +28,8 @@ impl RandomPolicy {
             .memory_usage
             .fetch_add(value, atomic::Ordering::Release);
 
+        #[cfg(memcrs_verif)]
+        crate::verif::emit("policy.accounted", value, usage);
         let mut small_rng = SmallRng::from_entropy();
         while usage > self.memory_limit {
             debug!("Current memory usage: {}", usage);
@@ -39,6 +41,8 @@ impl RandomPolicy {
                 break;
             }
             let item = small_rng.gen_range(0..max);
+            #[cfg(memcrs_verif)]
+            crate::verif::emit("policy.evict.pick", item as u64, usage);
             let mut number_of_calls: usize = 0;
             let res = self
                 .store
@@ -60,11 +64,19 @@ impl RandomPolicy {
                     usage = self
                         .decr_mem_usage(len as u64)
                         .saturating_sub(len as u64 + value);
+                    #[cfg(memcrs_verif)]
+                    crate::verif::emit("policy.evict.done", len as u64, usage);
                 }
                 None => {}
             });
         }
         usage
+    }
+
+    /// accounted usage, for the verification harness
+    #[cfg(memcrs_verif)]
+    pub fn verif_memory_usage(&self) -> u64 {
+        self.memory_usage.load(atomic::Ordering::Acquire)
     }
 
     fn decr_mem_usage(&self, value: u64) -> u64 {
@@ -93,6 +105,8 @@ impl Cache for RandomPolicy {
     fn set(&self, key: KeyType, record: Record) -> Result<SetStatus> {
         let len = record.len() as u64;
         self.incr_mem_usage(len);
+        #[cfg(memcrs_verif)]
+        crate::verif::emit("policy.set.before_store", len, 0);
         self.store.set(key, record)
     }
 
